@@ -47,8 +47,14 @@ pub open spec fn member(l: Lang, name: Seq<char>, t: Seq<char>, f: RustField) ->
         // Name *T `json:"key,omitempty"`  - the caller supplies name / key texts; see go_member
         Lang::Go => name + " "@ + mark(f.has_default && !is_opt(f.ty), "*"@) + t,
         // name: Optional[T] = Field(.., default=None)  - see py_member
-        Lang::Python => name + ": "@ + (if f.has_default && !is_opt(f.ty) { "Optional["@ + t + "]"@ } else { t }),
+        Lang::Python => name + ": "@ + py_inner(t, f),
     }
+}
+/// Python: the type text of a member - `Optional[T]` exactly when serde(default) stands on a non-Option (the translation of Option<T> is `Optional[..]` already)
+pub open spec fn py_inner(t: Seq<char>, f: RustField) -> Seq<char> { if f.has_default && !is_opt(f.ty) { "Optional["@ + t + "]"@ } else { t } }
+/// Python: a member whose type text has custom (de)serialiser functions is wrapped as a whole - the optional marker stays inside, around the type text
+pub open spec fn py_annotated(inner: Seq<char>, de: Seq<char>, ser: Seq<char>) -> Seq<char> {
+    "Annotated["@ + inner + ", BeforeValidator("@ + de + "), PlainSerializer("@ + ser + ")]"@
 }
 /// Go: the struct tag carries `,omitempty` exactly for optional members
 pub open spec fn go_tag(key: Seq<char>, f: RustField) -> Seq<char> { " `json:\""@ + key + mark(optional(f), ",omitempty"@) + "\"`"@ }
